@@ -29,7 +29,7 @@ def contract():
             # an extra argument that is not a plain constant (e.g. a memo created before the loop and shared between the
             # fields) is a channel from one field's staging to another's
             return False
-        fld = st.env["fld"]
+        fld = st.ghost["_iter_elem"]  # the field of this iteration, whatever the loop variable is called
         self_ = st.env["__entry__"]["self"] if "__entry__" in st.env else st.env["self"]
         mode = E.getattr_(st, fld, "copy_mode", _n("fld.copy_mode"))[0][1]
         coll = E.getattr_(st, fld, "copy_collation", _n("fld.copy_collation"))[0][1]
